@@ -29,8 +29,8 @@ TECHNIQUE = "symbolic execution of the real wildcard translator (symx) + z3 regu
 LEVEL_TEXT = ("For every pattern up to the length bound (code points <= U+2FFFF, z3's character range) z3 proves that the regular expression the real _create_regex emits accepts "
               "exactly the names the documented wildcard relation accepts - for names of ANY length (z3 regex theory, no bound on the name) - or returns a (pattern, name) "
               "witness that is replayed through the real match_with_wildcard. filter_inventories/filter_sphinx_inventories are executed symbolically over bounded "
-              "inventories with symbolic names and compared with the four-coordinate specification and with each other; the inv: link rendering law is checked over a "
-              "symbolic number of matches.")
+              "inventories with symbolic names (incl. object types containing ':') and compared with the four-coordinate specification and with each other; inv: links through the real renderer over two "
+              "configured inventories with symbolic entry names and every base-URL form: first match in configured order, one warning for none / several.")
 LEVEL_NOTE = ("Trusted: symx, the sre-parse-tree -> z3 regex translator in this harness (validated each run against the real re module on concrete patterns/names), z3's "
               "sequence/regex solver ('unknown' = inconclusive), the 10-line specification of the wildcard relation. functools.lru_cache keying is outside.")
 BUDGET_S = {"quick": 120, "thorough": 900}
